@@ -64,6 +64,8 @@ class Fn:
         self.tables = {}   # local static const arrays: name -> (elemwidth, [values])
         self.params = []
         self.ret = None
+        self.outs = {}     # scalar out-pointer parameters: name -> (w, signed)
+        self.mode = None   # None: the function's return value; a name: the final value of that out parameter
 
     # ---- expressions: return (lean_term, (w, signed), [definedness conditions]) ----
     def cast(self, term, src, dst):
@@ -102,6 +104,13 @@ class Fn:
                 to = tinfo(ctype(n))
                 return self.cast(t, ti, to), to, c
             raise Unsupported(f"cast kind {ck}")
+        if k == "UnaryOperator" and n["opcode"] == "*":
+            nm = self.out_name(n)
+            if nm is None:
+                raise Unsupported("dereference of something that is not a scalar out parameter")
+            return "o_" + nm, self.outs[nm], []
+        if k == "MemberExpr":
+            return self.member(n)
         if k == "UnaryOperator":
             op = n["opcode"]
             t, ti, c = self.expr(n["inner"][0])
@@ -193,6 +202,8 @@ class Fn:
             assert ta == tb
             conds = conds + [f"({b} != {lit(0, tb[0])})"]
             if ta[1]:
+                # INT_MIN / -1 (and INT_MIN % -1) overflow: undefined
+                conds = conds + [f"(!(({a} == {lit(1 << (ta[0] - 1), ta[0])}) && ({b} == {lit(-1, tb[0])})))"]
                 f = "BitVec.sdiv" if op == "/" else "BitVec.srem"
                 return f"({f} {a} {b})", to, conds
             return f"({a} {op} {b})", to, conds
@@ -225,21 +236,86 @@ class Fn:
     def var(self, name):
         return "v_" + name
 
+    def out_name(self, n):
+        """n is `*p` (possibly parenthesised) with p an out parameter -> its name"""
+        while n["kind"] == "ParenExpr":
+            n = n["inner"][0]
+        if n["kind"] != "UnaryOperator" or n.get("opcode") != "*":
+            return None
+        x = n["inner"][0]
+        while x["kind"] in ("ParenExpr", "ImplicitCastExpr"):
+            x = x["inner"][0]
+        if x["kind"] == "DeclRefExpr" and x["referencedDecl"]["name"] in self.outs:
+            return x["referencedDecl"]["name"]
+        return None
+
+    def lhs(self, n):
+        """assignment target -> (lean variable name, (w, signed))"""
+        while n["kind"] == "ParenExpr":
+            n = n["inner"][0]
+        if n["kind"] == "DeclRefExpr":
+            if n["referencedDecl"]["name"] in self.outs:
+                raise Unsupported("assignment to an out pointer itself")
+            return self.var(n["referencedDecl"]["name"]), tinfo(ctype(n))
+        o = self.out_name(n)
+        if o is not None:
+            return "o_" + o, self.outs[o]
+        raise Unsupported("assignment target")
+
+    def member(self, n):
+        """`table[i].field` for a file-scope const array of structs"""
+        base = n["inner"][0]
+        while base["kind"] in ("ImplicitCastExpr", "ParenExpr"):
+            base = base["inner"][0]
+        if n.get("isArrow") or base["kind"] != "ArraySubscriptExpr":
+            raise Unsupported("member access other than table[i].field")
+        arr = base["inner"][0]
+        while arr["kind"] in ("ImplicitCastExpr", "ParenExpr"):
+            arr = arr["inner"][0]
+        if arr["kind"] != "DeclRefExpr" or arr["referencedDecl"]["kind"] != "VarDecl":
+            raise Unsupported("member access base")
+        an = arr["referencedDecl"]["name"]
+        field = n["name"]
+        to = tinfo(ctype(n))
+        vals = self.tr.global_field_table(an, field)
+        key = f"{an}_{field}"
+        self.tr.global_tables[key] = (to[0], vals)
+        i, ti, ci = self.expr(base["inner"][1])
+        cmp = "BitVec.slt" if ti[1] else "BitVec.ult"
+        conds = ci + [f"({cmp} {i} {lit(len(vals), ti[0])})"]
+        if ti[1]:
+            conds.append(f"(BitVec.sle {lit(0, ti[0])} {i})")
+        if ti[0] != 32:
+            raise Unsupported("table index width")
+        return f"(tbl_{key} {i})", to, conds
+
     # ---- statements: produce (value_term, defined_term) for "rest of function" ----
     def block(self, stmts):
         """stmts: list of statement nodes which must end in a return on every path.
         returns (lean value term, lean definedness term) as multi-line strings."""
         if not stmts:
+            if self.ret is None and self.mode is not None:
+                return "o_" + self.mode, "true"
+            if self.ret is None:
+                return "()", "true"
             raise Unsupported("control reaches end of non-void function")
         s, rest = stmts[0], stmts[1:]
         k = s["kind"]
+        if k == "__yield":
+            return s["term"], "true"
         if k == "CompoundStmt":
             return self.block(list(s.get("inner", [])) + rest)
         if k == "NullStmt":
             return self.block(rest)
         if k == "ReturnStmt":
+            if not s.get("inner"):
+                if self.mode is None:
+                    raise Unsupported("void return in value mode")
+                return "o_" + self.mode, "true"
             t, ti, c = self.expr(s["inner"][0])
             t = self.cast(t, ti, self.ret)
+            if self.mode is not None:
+                t = "o_" + self.mode
             return t, conj(c)
         if k == "DeclStmt":
             out_v, out_d = None, None
@@ -252,6 +328,17 @@ class Fn:
                     continue
                 if "inner" not in d:
                     raise Unsupported(f"uninitialised local {d['name']}")
+                init = d["inner"][0]
+                while init["kind"] == "ParenExpr":
+                    init = init["inner"][0]
+                if init["kind"] == "BinaryOperator" and init.get("opcode") == "=":
+                    # `T x = (y = e);` (the H3_SET_* macros are assignment expressions): first the assignment,
+                    # then x takes the assigned variable's value
+                    if len(s["inner"]) != 1:
+                        raise Unsupported("assignment expression among several declarators")
+                    d2 = dict(d); d2["inner"] = [init["inner"][0]]
+                    s2 = dict(s); s2["inner"] = [d2]
+                    return self.block([init, s2] + rest)
                 t, ti, c = self.expr(d["inner"][0])
                 to = tinfo(ctype(d))
                 t = self.cast(t, ti, to)
@@ -262,13 +349,7 @@ class Fn:
                 dfn = f"{conj(c)} &&\n(let {nm} : BitVec {to[0]} := {t}\n{dfn})"
             return v, dfn
         if k in ("BinaryOperator", "CompoundAssignOperator"):
-            lhs = s["inner"][0]
-            while lhs["kind"] == "ParenExpr":
-                lhs = lhs["inner"][0]
-            if lhs["kind"] != "DeclRefExpr":
-                raise Unsupported("assignment target")
-            nm = self.var(lhs["referencedDecl"]["name"])
-            tl = tinfo(ctype(lhs))
+            nm, tl = self.lhs(s["inner"][0])
             if k == "BinaryOperator":
                 if s["opcode"] != "=":
                     raise Unsupported("expression statement " + s["opcode"])
@@ -296,9 +377,19 @@ class Fn:
                 raise Unsupported(f"loop in {self.name} without --unroll bound")
             loop = {"kind": "__loop", "cond": inner[2], "inc": inner[3], "body": inner[4], "n": n}
             return self.block([inner[0], loop] + rest)
+        if k == "WhileStmt":
+            inner = s["inner"]
+            if len(inner) != 2:
+                raise Unsupported("while statement with a condition variable")
+            n = self.tr.unroll.get(self.name)
+            if n is None:
+                raise Unsupported(f"loop in {self.name} without --unroll bound")
+            loop = {"kind": "__loop", "cond": inner[0], "inc": {"kind": "NullStmt"}, "body": inner[1], "n": n}
+            return self.block([loop] + rest)
         if k == "__loop":
             if s["n"] == 0:
-                return lit(0, self.ret[0]), "false"
+                w = self.outs[self.mode][0] if self.mode is not None else self.ret[0]
+                return lit(0, w), "false"
             c0, tc, cc = self.expr(s["cond"])
             cond = f"({c0} != {lit(0, tc[0])})"
             nxt = dict(s); nxt["n"] = s["n"] - 1
@@ -307,13 +398,7 @@ class Fn:
             return (f"if {cond} then\n{indent(tv)}\nelse\n{ev}",
                     f"{conj(cc)} &&\n(if {cond} then\n{indent(td)}\nelse\n{ed})")
         if k == "UnaryOperator" and s.get("opcode") in ("++", "--"):
-            lhs = s["inner"][0]
-            while lhs["kind"] == "ParenExpr":
-                lhs = lhs["inner"][0]
-            if lhs["kind"] != "DeclRefExpr":
-                raise Unsupported("increment target")
-            nm = self.var(lhs["referencedDecl"]["name"])
-            tl = tinfo(ctype(lhs))
+            nm, tl = self.lhs(s["inner"][0])
             one = lit(1, tl[0])
             t = f"({nm} + {one})" if s["opcode"] == "++" else f"({nm} - {one})"
             c = []
@@ -362,19 +447,50 @@ class Fn:
             then = inner[1]
             els = inner[2] if len(inner) > 2 else None
             if not always_returns(then):
-                raise Unsupported("if-branch that falls through")
+                return self.if_merge(cond, cc, then, els, rest)
             tv, td = self.block([then])
             if els is not None:
                 if not always_returns(els):
-                    raise Unsupported("else-branch that falls through")
-                ev, ed = self.block([els])
-                if rest:
-                    raise Unsupported("dead code after if/else")
+                    ev, ed = self.block([els] + rest)
+                else:
+                    ev, ed = self.block([els])
+                    if rest:
+                        raise Unsupported("dead code after if/else")
             else:
                 ev, ed = self.block(rest)
             return (f"if {cond} then\n{indent(tv)}\nelse\n{ev}",
                     f"{conj(cc)} &&\n(if {cond} then\n{indent(td)}\nelse\n{ed})")
         raise Unsupported(f"statement kind {k}")
+
+    def if_merge(self, cond, cc, then, els, rest):
+        """`if (c) A [else B]` where A (and B) fall through: the variables assigned in A or B take, after the
+        statement, the value the taken branch leaves in them"""
+        if contains_return(then) or (els is not None and contains_return(els)):
+            raise Unsupported("if-branch that returns on some paths only")
+        vs = {}
+        assigned(self, then, vs, set())
+        if els is not None:
+            assigned(self, els, vs, set())
+        names = sorted(vs)
+        _, td = self.block([then, {"kind": "__yield", "term": "()"}])
+        ed = "true"
+        if els is not None:
+            _, ed = self.block([els, {"kind": "__yield", "term": "()"}])
+        binds = []
+        for nm in names:
+            tv, _ = self.block([then, {"kind": "__yield", "term": nm}])
+            ev = nm
+            if els is not None:
+                ev, _ = self.block([els, {"kind": "__yield", "term": nm}])
+            binds.append((nm, vs[nm], f"if {cond} then\n{indent(tv)}\nelse\n{indent(ev)}"))
+        v, dfn = self.block(rest)
+        pre = ""
+        for nm, ti, t in binds:
+            pre += f"let t_{nm} : BitVec {ti[0]} :=\n{indent(t)}\n"
+        for nm, ti, t in binds:
+            pre += f"let {nm} : BitVec {ti[0]} := t_{nm}\n"
+        return (pre + v,
+                f"{conj(cc)} &&\n(if {cond} then\n{indent(td)}\nelse\n{indent(ed)}) &&\n({pre}{dfn})")
 
     def add_table(self, d):
         q = ctype(d)
@@ -404,19 +520,39 @@ class Fn:
 
     def translate(self):
         n = self.node
-        self.ret = tinfo(n["type"]["qualType"].split("(")[0].strip())
+        rq = n["type"]["qualType"].split("(")[0].strip()
+        self.ret = None if rq == "void" else tinfo(rq)
         body = None
         for c in n.get("inner", []):
             if c["kind"] == "ParmVarDecl":
-                self.params.append((self.var(c["name"]), tinfo(ctype(c))))
+                q = ctype(c)
+                if q.rstrip().endswith("*"):
+                    # scalar out parameter: the function additionally yields the final value of *p; the value *p had
+                    # on entry is a parameter, so "untouched on this path" is expressible
+                    pt = tinfo(q.rstrip()[:-1].strip())
+                    self.outs[c["name"]] = pt
+                    self.params.append(("o_" + c["name"], pt))
+                else:
+                    self.params.append((self.var(c["name"]), tinfo(q)))
             elif c["kind"] == "CompoundStmt":
                 body = c
         if body is None:
             raise Unsupported("no body")
-        v, dfn = self.block([body])
         ln = self.tr.lean_name(self.name)
         ps = " ".join(f"({p} : BitVec {t[0]})" for p, t in self.params)
         out = []
+        variants = []
+        if self.ret is not None:
+            self.mode = None
+            v, dfn = self.block([body])
+            variants.append((ln, self.ret[0], v, f"translated from C `{self.name}`"))
+        for o, pt in self.outs.items():
+            self.mode = o
+            v, dfn = self.block([body])
+            variants.append((f"{ln}_out_{o}", pt[0], v, f"translated from C `{self.name}`: the value of `*{o}` when it returns"))
+        self.mode = None
+        if not variants:
+            raise Unsupported("function without a result")
         for an, (ew, vals) in self.tables.items():
             # index type is not known here: emit for 32-bit index (int promotions)
             chain = ""
@@ -424,7 +560,8 @@ class Fn:
                 if x != 0:
                     chain += f"  if i == {lit(i, 32)} then {lit(x, ew)} else\n"
             out.append(f"def {ln}_{an} (i : BitVec 32) : BitVec {ew} :=\n{chain}  {lit(0, ew)}\n")
-        out.append(f"/-- translated from C `{self.name}` -/\ndef {ln} {ps} : BitVec {self.ret[0]} :=\n{indent(v)}\n")
+        for (nm, w, v, doc) in variants:
+            out.append(f"/-- {doc} -/\ndef {nm} {ps} : BitVec {w} :=\n{indent(v)}\n")
         out.append(f"/-- no undefined shift / table read / signed overflow on the path taken by `{self.name}` -/\n"
                    f"def {ln}_defined {ps} : Bool :=\n{indent(dfn)}\n")
         return "\n".join(out)
@@ -454,6 +591,30 @@ def const_eval_enum(tr, e):
     if k == "DeclRefExpr" and e["referencedDecl"]["kind"] == "EnumConstantDecl":
         return tr.enum_value(e["referencedDecl"]["name"])
     raise Unsupported(f"case label {k}")
+
+
+def contains_return(s):
+    if isinstance(s, dict):
+        if s.get("kind") == "ReturnStmt":
+            return True
+        return any(contains_return(c) for c in s.get("inner", []))
+    return False
+
+
+def assigned(fn, s, out, local):
+    """collect into `out` (lean name -> type) the variables a statement may assign, other than its own locals"""
+    if not isinstance(s, dict):
+        return
+    k = s.get("kind")
+    if k == "VarDecl":
+        local.add(fn.var(s["name"]))
+    if (k == "BinaryOperator" and s.get("opcode") == "=") or k == "CompoundAssignOperator" or \
+            (k == "UnaryOperator" and s.get("opcode") in ("++", "--")):
+        nm, ti = fn.lhs(s["inner"][0])
+        if nm not in local:
+            out[nm] = ti
+    for c in s.get("inner", []):
+        assigned(fn, c, out, local)
 
 
 def always_returns(s):
@@ -493,6 +654,8 @@ class Translator:
         self.files = []
         self.rename = {}
         self.unroll = {}
+        self.global_tables = {}   # "<array>_<field>" -> (elemwidth, [values])
+        self.full = {}
 
     def lean_name(self, cname):
         return self.rename.get(cname, cname.lstrip("_"))
@@ -557,6 +720,55 @@ class Translator:
                         return v
         raise Unsupported(f"value of enumeration constant {name}")
 
+    def full_ast(self, path):
+        if path not in self.full:
+            cmd = ["clang", "-std=c11", "-fsyntax-only", "-Xclang", "-ast-dump=json"] + self.clang_args + [path]
+            r = subprocess.run(cmd, capture_output=True, text=True)
+            if r.returncode != 0:
+                raise Unsupported(f"clang failed on {path}: {r.stderr[:500]}")
+            self.full[path] = json.loads(r.stdout)
+        return self.full[path]
+
+    def global_field_table(self, arr, field):
+        """values of `field` over the initialiser of the file-scope const array of structs `arr`"""
+        for path in self.files:
+            tu = self.full_ast(path)
+            fields = {}     # record decl id -> [field names]
+            def walk(x):
+                if isinstance(x, dict):
+                    if x.get("kind") == "RecordDecl" and x.get("completeDefinition"):
+                        fields[x["id"]] = [c["name"] for c in x.get("inner", []) if c.get("kind") == "FieldDecl"]
+                    for c in x.get("inner", []):
+                        walk(c)
+            walk(tu)
+            for d in tu.get("inner", []):
+                if d.get("kind") == "VarDecl" and d.get("name") == arr and d.get("inner"):
+                    q = ctype(d)
+                    if not q.startswith("const "):
+                        raise Unsupported(f"table {arr} is not const")
+                    init = d["inner"][0]
+                    if init["kind"] != "InitListExpr":
+                        raise Unsupported("table initialiser")
+                    vals = []
+                    for e in init.get("inner", []):
+                        if e["kind"] != "InitListExpr":
+                            raise Unsupported("table element initialiser")
+                        # field order of the element's record type
+                        names = None
+                        for fl in fields.values():
+                            if field in fl and len(fl) == len(e.get("inner", [])):
+                                if names is not None and names != fl:
+                                    raise Unsupported("ambiguous record type for " + arr)
+                                names = fl
+                        if names is None:
+                            raise Unsupported(f"record type of {arr} not found")
+                        vals.append(const_eval(e["inner"][names.index(field)]))
+                    m = __import__("re").search(r"\[(\d+)\]", q)
+                    if not m or int(m.group(1)) != len(vals):
+                        raise Unsupported(f"table {arr}: {len(vals)} initialisers")
+                    return vals
+        raise Unsupported(f"file-scope table {arr} not found with an initialiser")
+
     def require(self, fname):
         if fname in self.done:
             return
@@ -586,7 +798,14 @@ def main():
         tr.require(fn)
     with open(a.out, "w") as f:
         f.write("/- GENERATED by tools/c2lean.py from the uber/h3 working tree (clang AST). Do not edit. -/\n")
-        f.write("set_option linter.unusedVariables false\nnamespace H3.Gen.Bits\n\n")
+        f.write("set_option linter.unusedVariables false\nset_option maxHeartbeats 4000000\nset_option maxRecDepth 16000\nnamespace H3.Gen.Bits\n\n")
+        for key, (ew, vals) in tr.global_tables.items():
+            chain = ""
+            for i, x in enumerate(vals):
+                if x != 0:
+                    chain += f"  if i == {lit(i, 32)} then {lit(x, ew)} else\n"
+            f.write(f"/-- `{key}`: read from the initialiser in the C source -/\n"
+                    f"def tbl_{key} (i : BitVec 32) : BitVec {ew} :=\n{chain}  {lit(0, ew)}\n\n")
         for name in tr.order:
             f.write(tr.done[name] + "\n")
         f.write("end H3.Gen.Bits\n")
